@@ -149,7 +149,7 @@ func (t *textReader) nextAfterValue() (bool, error) {
 
 	case tokenCloseBracket:
 		// No more values in this list.
-		if t.ctx.peek() == ctxInList {
+		if t.ctx.peek() == ctxInList && len(t.annotations) == 0 {
 			t.eof = true
 			return true, nil
 		}
@@ -216,10 +216,11 @@ func (t *textReader) nextBeforeTypeAnnotations() (bool, error) {
 	tok := t.tok.Token()
 	switch tok {
 	case tokenEOF:
-		if t.ctx.peek() == ctxAtTopLevel {
+		if t.ctx.peek() == ctxAtTopLevel && len(t.annotations) == 0 {
 			t.eof = true
 			return true, nil
 		}
+		// Either inside a container, or annotations without a value to annotate.
 		return false, &UnexpectedEOFError{t.tok.Pos() - 1}
 
 	case tokenSymbolOperator, tokenDot:
@@ -347,7 +348,7 @@ func (t *textReader) nextBeforeTypeAnnotations() (bool, error) {
 
 	case tokenCloseBracket:
 		// No more values in this list.
-		if t.ctx.peek() == ctxInList {
+		if t.ctx.peek() == ctxInList && len(t.annotations) == 0 {
 			t.eof = true
 			return true, nil
 		}
@@ -355,7 +356,7 @@ func (t *textReader) nextBeforeTypeAnnotations() (bool, error) {
 
 	case tokenCloseParen:
 		// No more values in this sexp.
-		if t.ctx.peek() == ctxInSexp {
+		if t.ctx.peek() == ctxInSexp && len(t.annotations) == 0 {
 			t.eof = true
 			return true, nil
 		}
